@@ -421,6 +421,13 @@ fn check_logger_name(name: &str) -> Result<(), ConfigError> {
     }
 }
 
+/// The private name check, unchanged.
+#[cfg(log4rs_verif)]
+#[doc(hidden)]
+pub fn verif_check_logger_name(name: &str) -> bool {
+    check_logger_name(name).is_ok()
+}
+
 /// Errors encountered when validating a log4rs `Config`.
 #[derive(Debug, Error)]
 #[error("Configuration errors: {0:#?}")]
